@@ -1,7 +1,7 @@
 (* BuildFacts.v — proofs about Build.v / Validate.v used by the property files C01–C04, C12.
    Part 1: soundness of the boolean validators w.r.t. declarative statements, and inversion of the public build. *)
 From Coq Require Import List String NArith Arith Bool Lia.
-From Spox Require Import Base IR Show Build Sem Plan Validate.
+From Spox Require Import Base IR Show Build Sem Plan Named Validate.
 Import ListNotations.
 
 (* ---------- generic boolean reflection ---------- *)
@@ -137,13 +137,13 @@ Variables (p : prog) (r : request) (m : model) (inputs outputs : list (string * 
 Hypothesis Hin : all_vars (r_inputs r) = Some inputs.
 Hypothesis Hout : all_vars (r_outputs r) = Some outputs.
 Hypothesis Hv : validators p r m = true.
-Let p' := with_main p (Some (main_args inputs)) outputs.
+Let p' := final_prog p r inputs outputs.
 
 Lemma validators_split :
   global_unique (mmain m) = true /\ node_names_unique (mmain m) = true /\ imports_unique m = true /\ floor_ok m = true /\
   emitted_once p' (mmain m) = true /\ placed p' (mmain m) = true /\ check_plan p' 0 (mmain m) = true /\
   functions_exact p' m = true /\ function_imports_cover p' m = true /\ function_plans p' m = true /\
-  inline_blocks_alpha p' m = true /\
+  inline_blocks_alpha p' m = true /\ names_ok p' 0 (mmain m) = true /\
   io_exact p' inputs outputs (r_drop r) (depends_on p' 0) (mmain m) = true.
 Proof. pose proof Hv as H. unfold validators in H. rewrite Hin, Hout in H. fold p' in H.
   repeat (apply andb_prop in H; destruct H as [H ?]). repeat split; assumption. Qed.
@@ -184,9 +184,11 @@ Theorem io_names_exact :
     map snd gi = map (fun kv => match vty p' (snd kv) with Some t => tshow t | None => "?"%string end)
                      (if r_drop r then filter (fun kv => mem var_eqb (snd kv) (depends_on p' 0)) inputs else inputs)
   end.
-Proof. destruct validators_split as (_ & _ & _ & _ & _ & _ & _ & _ & _ & _ & _ & H). unfold io_exact in H. destruct (mmain m) as [gi b go_].
+Proof. destruct validators_split as (_ & _ & _ & _ & _ & _ & _ & _ & _ & _ & _ & _ & H). unfold io_exact in H. destruct (mmain m) as [gi b go_].
   repeat (apply andb_prop in H; destruct H as [H ?]).
   repeat split; now apply (list_eqb_eq String.eqb string_eqb_spec). Qed.
+Theorem names_checked : names_ok p' 0 (mmain m) = true.
+Proof. now destruct validators_split as (_ & _ & _ & _ & _ & _ & _ & _ & _ & _ & _ & H & _). Qed.
 Theorem plan_checked : check_plan p' 0 (mmain m) = true.
 Proof. now destruct validators_split as (_ & _ & _ & _ & _ & _ & H & _). Qed.
 
